@@ -237,6 +237,18 @@ func vCheckOne(w *vWorld, cfg vConfig, op vOp, vars map[string]interface{}, sdls
 		verifAssert(valid, "scenario operation is valid against the gateway schema")
 		verifAssert(code == 200, "status 200 for a decodable request")
 		errs, hasErrs := out["errors"]
+		if hasErrs && errs != nil {
+			if el, ok := errs.([]interface{}); ok && len(el) > 0 {
+				if em, ok := el[0].(map[string]interface{}); ok {
+					if ms, ok := em["message"].(string); ok {
+						verifLog("first error: " + ms)
+					}
+				}
+			}
+			if f.broken != "" {
+				verifLog("rejected sub-request: " + f.broken)
+			}
+		}
 		verifAssert(!hasErrs || errs == nil, "errors is empty for a valid operation on healthy services ["+cfg.name+"]")
 		verifAssert(f.broken == "", "every sub-request is valid for the service it is sent to ["+cfg.name+"]")
 		data, _ := out["data"].(map[string]interface{})
